@@ -340,10 +340,11 @@ func rewriteBlockingCall(fi *fileInfo, call *ast.CallExpr, info *types.Info, off
 		if _, isPtr := tv.Type.Underlying().(*types.Pointer); isPtr {
 			ptr = "(" + x + ")"
 		}
-		arg := string(fi.src[offOf(call.Args[0].Pos()):offOf(call.Args[0].End())])
 		*n++
-		fi.edits = append(fi.edits, edit{off: offOf(call.Pos()), end: offOf(call.End()), prio: 5,
-			text: fmt.Sprintf("verifsim.OnceDo(%s, %s)", ptr, arg)})
+		// only the callee is replaced ("X.Do(" -> "verifsim.OnceDo(&X, "): the argument stays in
+		// place, because a function literal there carries yield insertions of its own
+		fi.edits = append(fi.edits, edit{off: offOf(call.Pos()), end: offOf(call.Lparen) + 1, prio: 5,
+			text: fmt.Sprintf("verifsim.OnceDo(%s, ", ptr)})
 	}
 }
 
